@@ -175,7 +175,12 @@ def sym_to_bsf_body():
             state['init'] = env['bsf_operator']
             state['loops'] = state.get('loops', 0) + 1
             env['bsf_operator'] = Arr(state['init'].shape, lambda j: A0[Z(j)], 'int', 'fresh')
-            env[s.target.id] = LocV(loc)
+            if getattr(s_, 'iter_kind', 'keys') == 'items':
+                x.assign(s.target, T([LocV(loc), _pauli_E(op(loc))]), env, st)
+            elif isinstance(s.target, ast.Name):
+                env[s.target.id] = LocV(loc)
+            else:
+                raise Unsupported('loop target of the operator loop')
             x.block(s.body, env, st)
             state['post'] = env['bsf_operator']
 
